@@ -184,3 +184,125 @@ def ob_fastq_real(tier):
         return check_fastq_real(ex.choose(o, range(5)), ex.choose(l, range(5)), ex.choose(n, (1, 2, 5, 94)), ex.choose(c, range(4))) is None
     return [Case("FASTQ score characters over the whole representable range", [o >= 0, o < 5, l >= 0, l < 5, z3.Or(n == 1, n == 2, n == 5, n == 94), c >= 0, c < 4],
                  run, dict(oi=o, lo_i=l, n=n, cpl_i=c), _rep(check_fastq_real, "oi", "lo_i", "n", "cpl_i"))]
+
+
+# ============================================================== GFF3 file as a list of entries (class E)
+def _gff_entries():
+    from biotite.sequence import Location
+    F, R = Location.Strand.FORWARD, Location.Strand.REVERSE
+    return [("chr1", "src", "gene", 1, 9, None, F, None, {"ID": "g1"}),
+            ("chr 2", "a;b", "CDS", 5, 5, 0.5, R, 2, {"ID": "c1", "Note": "x y,z=1"}),
+            ("c%3", ".", "exon", 100000, 100001, 12.0, None, 0, {}),
+            ("chr1", "src", "gene", 1, 9, None, F, None, {"ID": "g1"})]          # (a duplicate of the first entry)
+
+
+def gfffile_seq(ops):
+    """ops: list of (kind, index, entry no); the file is compared with a list of lines (entries and directives) after every
+    step, directly and after writing and re-reading the text"""
+    import io
+    from biotite.sequence.io.gff import GFFFile
+    E = _gff_entries()
+    f = GFFFile()
+    model = [("D", "gff-version 3")]
+    for no in (0, 1):
+        f.append(*E[no])
+        model.append(("E", E[no]))
+
+    def agree(g):
+        ents = [m[1] for m in model if m[0] == "E"]
+        if len(g) != len(ents):
+            return f"len {len(g)} vs {len(ents)}"
+        for i, e in enumerate(ents):
+            for j in (i, i - len(ents)):
+                got = g[j]
+                if tuple(got[:8]) != tuple(e[:8]) or dict(got[8]) != e[8]:
+                    return f"entry {j}: {got} vs {e}"
+        for bad in (len(ents), -len(ents) - 1):
+            try:
+                g[bad]
+                return f"entry index {bad} answered"
+            except IndexError:
+                pass
+        want_dir = [(m[1], k) for k, m in enumerate(model) if m[0] == "D"]
+        if [(t, k) for t, k in g.directives()] != want_dir:
+            return f"directives {g.directives()} vs {want_dir}"
+        return None
+    r = agree(f)
+    if r:
+        return r
+    for step, (kind, idx, no) in enumerate(ops):
+        pos = [k for k, m in enumerate(model) if m[0] == "E"]
+        n = len(pos)
+        e = E[no]
+        try:
+            if kind == 0:          # replace
+                valid = -n <= idx < n
+                f[idx] = e
+                if valid:
+                    model[pos[idx]] = ("E", e)
+            elif kind == 1:        # insert (documented: index == length appends)
+                valid = -n <= idx <= n
+                f.insert(idx, *e)
+                if valid:
+                    if idx == n:
+                        model.append(("E", e))
+                    else:
+                        model.insert(pos[idx], ("E", e))
+            elif kind == 2:        # delete
+                valid = -n <= idx < n
+                del f[idx]
+                if valid:
+                    del model[pos[idx]]
+            elif kind == 3:        # append
+                valid = True
+                f.append(*e)
+                model.append(("E", e))
+            else:                  # directive
+                valid = True
+                f.append_directive(f"note{step}", "p1", str(no))
+                model.append(("D", f"note{step} p1 {no}"))
+            raised = False
+        except IndexError:
+            raised = True
+        if raised == valid:
+            return f"step {step} {(kind, idx, no)}: {'refused' if raised else 'accepted'} with {n} entries"
+        r = agree(f)
+        if r:
+            return f"after step {step} {(kind, idx, no)}: {r}"
+        out = io.StringIO()
+        f.write(out)
+        r = agree(GFFFile.read(io.StringIO(out.getvalue())))
+        if r:
+            return f"after step {step} {(kind, idx, no)}, text re-read: {r}"
+    return None
+
+
+def ob_gfffile(tier):
+    import z3
+    from vf.sx.core import cur
+    from vf.sx.ob import Case
+    k = 2 if tier == "quick" else 3
+    IDX = range(-4, 5) if tier == "quick" else range(-5, 6)
+    cases = []
+    for first in range(5):
+        ks = [z3.Int(f"k{i}") for i in range(k)]
+        ix = [z3.Int(f"i{i}") for i in range(k)]
+        no = [z3.Int(f"n{i}") for i in range(k)]
+        base = [ks[0] == first]
+        for a, b, c in zip(ks, ix, no):
+            base += [a >= 0, a <= 4, b >= IDX[0], b <= IDX[-1], c >= 0, c < 4, z3.Implies(a >= 3, b == 0)]
+
+        def run(ks=ks, ix=ix, no=no):
+            ex = cur()
+            ops = [(ex.choose(a, range(5)), ex.choose(b, IDX), ex.choose(c, range(4))) for a, b, c in zip(ks, ix, no)]
+            return gfffile_seq(ops) is None
+
+        def rep(w):
+            try:
+                r = gfffile_seq([tuple(o) for o in w["ops"]])
+                return r is None, str(r)
+            except Exception as ex_:
+                import traceback
+                return False, f"{type(ex_).__name__}: {ex_} | {traceback.format_exc()[-300:]}"
+        cases.append(Case(f"gff file first={first} k={k}", base, run, dict(ops=[[a, b, c] for a, b, c in zip(ks, ix, no)]), rep))
+    return cases
